@@ -36,6 +36,15 @@ Theorem stale_reservation_overflows_mtu :
 Proof. exact stale_reservation_overflows. Qed.
 Print Assumptions stale_reservation_overflows_mtu.
 
+(* ... in particular with the EFFECTIVE congestion mark: whatever the link service's own marking decision (an input: it
+   depends on time and on the transport's send queue) and whatever the upstream mark, the budget is computed for the mark
+   that is actually attached. *)
+Theorem frames_fit_effective_mark : forall mark_decision upstream mtu o seq tok inface wire,
+  (mtu <= 65535)%Z -> (zlen wire <= 65535)%Z ->
+  Forall (fits mtu) (fst (send_packet mtu o seq tok inface (effective_mark mark_decision upstream) wire)).
+Proof. exact (fun md up mtu o seq tok inface wire => frames_fit_lemma mtu o seq tok inface (effective_mark md up) wire). Qed.
+Print Assumptions frames_fit_effective_mark.
+
 (* A packet that fits - i.e. whose LpPacket (token, mark, incoming-face id, Fragment, no fragmentation fields) is no
    larger than the MTU - is sent as exactly one frame: that LpPacket.  The sequence counter is not consumed. *)
 Theorem fits_one_frame : forall mtu o seq tok inface mark wire,
